@@ -4,6 +4,8 @@ import (
 	"encoding/json"
 	"fmt"
 	"log/slog"
+	"sync"
+	"sync/atomic"
 
 	"github.com/goblimey/go-ntrip/rtcm/handler"
 	"github.com/goblimey/go-ntrip/rtcm/header"
@@ -461,4 +463,53 @@ func monC04(c *child.Ctx, replay json.RawMessage) {
 			c.Sample(k)
 		}
 	}
+	// several receivers' messages decoded at the same time by different goroutines
+	// (the proxy's connections, the fan-out's consumers): each result is that of its
+	// own message
+	nc := c.Share(c.Pick(24000, 400000))
+	var wg sync.WaitGroup
+	var bad atomic.Value
+	for g := 0; g < 4; g++ {
+		wg.Add(1)
+		go func(g int) {
+			defer wg.Done()
+			rr := ref.NewRand(r.Uint64() + uint64(g)*104729)
+			for i := 0; i < nc/4 && bad.Load() == nil; i++ {
+				m := gen.RandMSM(rr, gen.MSMOpts{Type: ref.MSMTypes[(i+g)%len(ref.MSMTypes)], AllowNoCell: true})
+				m.PadBytes = rr.Intn(3)
+				p := ref.EncodeMSM(m)
+				if len(p) > 1023 {
+					continue
+				}
+				kc := msmCase{M: m, Pads: []int{m.PadBytes}}
+				var why string
+				func() {
+					defer func() {
+						if x := recover(); x != nil {
+							why = fmt.Sprintf("panic: %v", x)
+						}
+					}()
+					direct, _, errText := decodeMSMBothWays(ref.Frame(p), ref.IsMSM7(m.Type), slog.LevelInfo)
+					if direct == nil {
+						why = "well-formed message rejected: " + errText
+						return
+					}
+					why = compareMSM(m, direct)
+				}()
+				if why != "" {
+					cj, _ := json.Marshal(kc)
+					bad.Store([2]string{"decoded while three other goroutines were decoding their own messages: " + why, string(cj)})
+				}
+				if i%256 == 0 {
+					tick()
+				}
+			}
+		}(g)
+	}
+	wg.Wait()
+	if v := bad.Load(); v != nil {
+		c.Violate("decode-mismatch", v.([2]string)[0], []byte(v.([2]string)[1]))
+	}
+	c.Count("concurrent_decodes_compared", int64(nc))
+	c.EvalN(1)
 }
